@@ -34,7 +34,7 @@ ALL_CTL = {"dropring", "close", "open", "shimw", "crash"}
 
 def consts(**kw):
     c = dict(Fill=9, Tick=1, LatChoices={1}, NF=1, InitLen=1, Entries={2}, Kinds=set(ALL_KINDS),
-             WVals={2}, WLens={1}, Offs={0}, RLens={2}, BadFlags={False}, CtlOps=set(), Modes={"rw"},
+             WVals={2}, WLens={1}, Offs={0}, RLens={2}, BadFlags={False}, CtlOps=set(), Modes={"rw"}, AllowDup=False,
              MaxRings=1, MaxOps=2, MaxTicks=2, MaxCrash=0)
     c.update(kw)
     return c
